@@ -149,3 +149,30 @@ VARIANTS += [
     ("C07-normalize-date", "C07", PARSING, "        return datetime(parsed.year, parsed.month, parsed.day)", "        return datetime(parsed.year, parsed.day, parsed.month)", "RECON.slot"),
     ("C07-exact", "C07", PARSING, '    if options.get("exact"):\n        return parsed\n', '    if options.get("exact") and False:\n        return parsed\n', "EXACT"),
 ]
+
+CONST = "src/pendulum/constants.py"
+VARIANTS += [
+    ("C08-clean", "C08", None, "", "", None),
+    ("C08-token-removed", "C08", FMT, '        "|E{1,4}"\n', '        "|EE"\n', "TABLES.language"),
+    ("C08-rule-removed", "C08", FMT, '        "E": lambda dt: f"{dt.isoweekday():d}",\n', "", "TABLES.handler"),
+    ("C08-local-branch-removed", "C08", FMT, '        elif token == "Mo":\n            return locale.ordinalize(dt.month)\n', "", "TABLES.handler"),
+    ("C08-parse-entry-removed", "C08", FMT, '        "Y": lambda year: int(year),\n', "", "TABLES.parse-entry"),
+    ("C08-arm-wrong-slot", "C08", FMT, '        elif "m" in token:\n            parsed["minute"] = parsed_token', '        elif "m" in token:\n            parsed["second"] = parsed_token', "TABLES.parse-arm"),
+    ("C08-arm-order", "C08", FMT, '        elif token in ["DDDD", "DDD"]:\n            parsed["day_of_year"] = parsed_token\n        elif "D" in token:\n            parsed["day"] = parsed_token', '        elif "D" in token:\n            parsed["day"] = parsed_token\n        elif token in ["DDDD", "DDD"]:\n            parsed["day_of_year"] = parsed_token', "TABLES.parse-arm"),
+    ("C08-S-scale", "C08", FMT, '"SSSS": lambda us: int(us) * 100,', '"SSSS": lambda us: int(us) * 1000,', "SCALE.parse"),
+    ("C08-S-render", "C08", FMT, '"SS": lambda dt: f"{dt.microsecond // 10000:02d}",', '"SS": lambda dt: f"{dt.microsecond // 1000:02d}",', "RENDER.rule"),
+    ("C08-pad", "C08", FMT, '"DDDD": lambda dt: f"{dt.day_of_year:03d}",', '"DDDD": lambda dt: f"{dt.day_of_year:02d}",', "RENDER.rule"),
+    ("C08-hh-mod", "C08", FMT, '"hh": lambda dt: f"{dt.hour % 12 or 12:02d}",', '"hh": lambda dt: f"{dt.hour % 12:02d}",', "RENDER.rule"),
+    ("C08-d-shift", "C08", FMT, '"d": lambda dt: f"{(dt.day_of_week + 1) % 7:d}",', '"d": lambda dt: f"{dt.day_of_week % 7:d}",', "RENDER.rule"),
+    ("C08-x-ms", "C08", FMT, 'f"{dt.int_timestamp * 1000 + dt.microsecond // 1000:d}"', 'f"{dt.int_timestamp * 1000 + dt.microsecond // 100:d}"', "RENDER.rule"),
+    ("C08-regex-width", "C08", FMT, '"DDDD": _MATCH_3,', '"DDDD": _MATCH_4,', "WIDTH.regex"),
+    ("C08-A-gt", "C08", FMT, "            if dt.hour >= 12:", "            if dt.hour > 12:", "MERIDIEM"),
+    ("C08-meridiem-add", "C08", FMT, '                validated["hour"] += 12  # type: ignore[operator]', '                validated["hour"] += 11  # type: ignore[operator]', "MERIDIEM"),
+    ("C08-Z-sign", "C08", FMT, 'sign = "+" if minutes >= 0 else "-"', 'sign = "+" if minutes > 0 else "-"', "OFFSET.render"),
+    ("C08-Z-sep", "C08", FMT, 'separator = ":" if token == "Z" else ""', 'separator = ":" if token == "ZZ" else ""', "OFFSET.render"),
+    ("C08-named-wrong-const", "C08", DT, '        "rfc850": RFC850,', '        "rfc850": RFC822,', "NAMED.table"),
+    ("C08-named-method", "C08", DT, '        return self._to_string("rfc1123")', '        return self._to_string("rfc1036")', "NAMED.method"),
+    ("C08-const-changed", "C08", CONST, 'RFC1123 = "ddd, DD MMM YYYY HH:mm:ss ZZ"', 'RFC1123 = "ddd, DD MMM YY HH:mm:ss ZZ"', "NAMED.const"),
+    ("C08-iso-z", "C08", DT, '        if self.tz and self.tz.name == "UTC":', '        if self.tz:', "NAMED.iso8601"),
+    ("C08-from-format-locale", "C08", INIT, "parts = _formatter.parse(string, fmt, now(tz=tz), locale=locale)", "parts = _formatter.parse(string, fmt, now(tz=tz))", "FROMFORMAT.forward"),
+]
